@@ -108,7 +108,7 @@ class TreeRun:
             n = 0
             for ev in st.events:
                 if ev[0] == "write" and (ev[1][0] != "fld" or ev[1][2] in ("left", "right")):
-                    st.tags["nlink"] = st.tags.get("nlink", 0) + 1
+                    st.tags["nlink"] = min(st.tags.get("nlink", 0) + 1, 16)
                 if ev[0] == "write" and ev[1][0] == "fld":
                     n += 1
                     lst = list(st.tags.get("stores", ()))
@@ -121,7 +121,7 @@ class TreeRun:
                     lst.append((ev[1], st.load(ev[1]), line(ev[2])))
                     st.tags["pstores"] = tuple(lst[-8:])
             if n:
-                st.tags["nstores"] = st.tags.get("nstores", 0) + n
+                st.tags["nstores"] = min(st.tags.get("nstores", 0) + n, 32)
 
         def on_return(st, stmt, sf_):
             self.rets.append((st, stmt, sf_.flow.cur))
